@@ -60,19 +60,20 @@ type WCfg struct {
 	NoFlush   bool
 	Ext       int // 0 none, 1 MessageState not compressed, 2 MessageState compressed
 	PlainOnly bool
+	Extra     ws.State // further state bits the application carries in the same value (StateExtended, StateFragmented)
 }
 
 var ctorNames = [...]string{"NewWriter", "NewWriterSize", "NewWriterBufferSize", "NewWriterBuffer", "GetWriter"}
 
 func (c WCfg) State() ws.State {
 	if c.Client {
-		return ws.StateClientSide
+		return ws.StateClientSide | c.Extra
 	}
-	return ws.StateServerSide
+	return ws.StateServerSide | c.Extra
 }
 
 func (c WCfg) String() string {
-	return fmt.Sprintf("%s(size=%d client=%v op=%d noFlush=%v ext=%d)", ctorNames[c.Ctor], c.Size, c.Client, c.Op, c.NoFlush, c.Ext)
+	return fmt.Sprintf("%s(size=%d client=%v state+=%#x op=%d noFlush=%v ext=%d)", ctorNames[c.Ctor], c.Size, c.Client, uint8(c.Extra), c.Op, c.NoFlush, c.Ext)
 }
 
 // headerRoom is the RFC header length for a payload of n bytes.
@@ -119,6 +120,7 @@ func drawWCfg(r *eng.Run) WCfg {
 	}
 	c.NoFlush = r.T.Chance(sim.LCfg, 1, 5)
 	c.Ext = r.T.Int(sim.LCfg, 4) % 3
+	c.Extra = []ws.State{0, 0, ws.StateExtended, ws.StateFragmented, ws.StateExtended | ws.StateFragmented}[r.T.Int(sim.LCfg, 5)]
 	return c
 }
 
